@@ -57,7 +57,7 @@ def main():
         "hooks": {
             "guard": "DASK_ARRAY_VERIF",
             "enable": "no source hooks: every monitor attaches from the harness (class/method patching, custom scheduler, recording inputs); the guard name is reserved",
-            "baseline_off_cmd": "cd /repo && /venv/bin/python -m pytest -q -p no:cacheprovider --timeout=900 -x -q dask_array/tests",
+            "baseline_off_cmd": "cd /repo && /venv/bin/python -m pytest -ra -q -p no:cacheprovider --timeout=900 --continue-on-collection-errors",
             "source_commits": [],
             "add_only": True,
         },
